@@ -82,7 +82,11 @@ class Node(object):
                 # a hand-made trailing line-table entry past the last instruction (decodes as _additional_line):
                 # on 3.10 a "no line" range (lt == "noline") or a numbered one, before 3.10 an lnotab row at len(co_code)
                 if hasattr(c, "co_linetable"):
-                    kw["co_linetable"] = c.co_linetable + bytes([2, 0x80 if lt == "noline" else int(lt) & 0x7F])
+                    kw["co_linetable"] = c.co_linetable + bytes([2, 0x80 if lt in ("noline", "multi") else int(lt) & 0x7F])
+                elif lt == "multi":
+                    # several rows for ONE bytecode offset, one of them a split line jump (the decoder merges them:
+                    # stored offsets beyond a signed byte), at the start of the table
+                    kw["co_lnotab"] = bytes([0, 1, 0, 127, 0, 50]) + c.co_lnotab
                 else:
                     addr = sum(c.co_lnotab[0::2])
                     rest = len(c.co_code) - addr
